@@ -12,6 +12,7 @@ import (
 	"fmt"
 	"math/big"
 	"strings"
+	"sync"
 	"testing"
 
 	"github.com/wokdav/gopki/generator/cert"
@@ -339,7 +340,44 @@ func checkC17Invalid(c c17Invalid) *core.Failure {
 	if err == nil || pc.PrivateKey != nil {
 		return core.Failf("C17/invalid-accepted/"+c.Kind, "ReadPem accepts invalid key input (%s): %s", c.Kind, hexs(c.DER))
 	}
+	// the same invalid key block inside an artifact file: valid blocks before or after it do not make it acceptable
+	certDER, csrDER := c17StaticCertAndCSR()
+	bad, crt, csr := core.PemBlock("PRIVATE KEY", c.DER), core.PemBlock("CERTIFICATE", certDER), core.PemBlock("CERTIFICATE REQUEST", csrDER)
+	hash := []byte("#HASH:AAAAAAAAAAAAAAAAAAAAAAAAAAA=\n")
+	for i, file := range [][]byte{cat(bad, crt), cat(bad, csr), cat(crt, bad), cat(crt, bad, csr), cat(hash, crt, bad, csr), cat(bad, crt, csr), cat(csr, bad, crt), cat(hash, bad, csr)} {
+		pc, err := cert.ReadPem(file)
+		if err == nil {
+			return core.Failf("C17/invalid-accepted-among-valid-blocks/"+c.Kind, "ReadPem reports no error for a file (layout %d) whose PRIVATE KEY block is invalid (%s): key %s", i, c.Kind, hexs(c.DER))
+		}
+		if pc.PrivateKey != nil {
+			return core.Failf("C17/invalid-accepted-among-valid-blocks/"+c.Kind, "ReadPem delivers a private key from a file (layout %d) whose PRIVATE KEY block is invalid (%s): key %s", i, c.Kind, hexs(c.DER))
+		}
+	}
 	return nil
+}
+
+func cat(parts ...[]byte) []byte {
+	var out []byte
+	for _, p := range parts {
+		out = append(out, p...)
+	}
+	return out
+}
+
+var c17Static struct {
+	once      sync.Once
+	cert, csr []byte
+}
+
+// c17StaticCertAndCSR: one Go-made certificate and request per process (their content plays no role in any oracle).
+func c17StaticCertAndCSR() ([]byte, []byte) {
+	c17Static.once.Do(func() {
+		k, _ := ecdsa.GenerateKey(elliptic.P256(), rand.Reader)
+		tmpl := &x509.Certificate{SerialNumber: big.NewInt(77), Subject: pkix.Name{CommonName: "static"}, NotBefore: core.Epoch, NotAfter: core.Epoch.AddDate(1, 0, 0)}
+		c17Static.cert, _ = x509.CreateCertificate(rand.Reader, tmpl, tmpl, &k.PublicKey, k)
+		c17Static.csr, _ = x509.CreateCertificateRequest(rand.Reader, &x509.CertificateRequest{Subject: pkix.Name{CommonName: "static"}}, k)
+	})
+	return c17Static.cert, c17Static.csr
 }
 
 func goCertAndCSR(t *rapid.T) (certDER, csrDER []byte) {
@@ -533,7 +571,7 @@ func TestC17(t *testing.T) {
 		cv := ecref.Curves[name]
 		d := genScalar(t, cv, "d")
 		good := buildECPKCS8(cv, d, ecEnc{OuterCurve: true, Public: rapid.Bool().Draw(t, "pub")})
-		kind := rapid.SampledFrom([]string{"truncated", "outer-tag", "scalar-ge-n", "unknown-curve", "unknown-alg", "rsa-bad-modulus", "random", "rsa-truncated", "inner-not-sequence"}).Draw(t, "kind")
+		kind := rapid.SampledFrom([]string{"truncated", "outer-tag", "scalar-ge-n", "unknown-curve", "unknown-alg", "rsa-bad-modulus", "rsa-bad-d", "rsa-bad-prime", "rsa-e-one", "random", "rsa-truncated", "inner-not-sequence"}).Draw(t, "kind")
 		c := c17Invalid{Kind: kind}
 		switch kind {
 		case "truncated":
@@ -551,6 +589,19 @@ func TestC17(t *testing.T) {
 				der.Octets(der.Seq(der.Integer(1), der.Octets(d.Bytes()))))
 		case "unknown-alg":
 			c.DER = der.Seq(der.Integer(0), der.Seq(der.MustOID("1.2.840.10040.4.1")), der.Octets(der.Seq(der.Integer(1), der.Octets(d.Bytes()))))
+		case "rsa-bad-d", "rsa-bad-prime", "rsa-e-one":
+			// numbers that do not belong together: well-formed, but not a key
+			k := rsaKeys(1024)[rapid.IntRange(0, len(rsaKeys(1024))-1).Draw(t, "rsaix")]
+			bad := rsa.PrivateKey{PublicKey: rsa.PublicKey{N: k.N, E: k.E}, D: k.D, Primes: []*big.Int{k.Primes[0], k.Primes[1]}}
+			switch kind {
+			case "rsa-bad-d":
+				bad.D = new(big.Int).Add(k.D, big.NewInt(2))
+			case "rsa-bad-prime":
+				bad.Primes[rapid.IntRange(0, 1).Draw(t, "which")] = new(big.Int).Add(k.Primes[0], big.NewInt(2))
+			default:
+				bad.E = 1
+			}
+			c.DER = der.Seq(der.Integer(0), der.Seq(der.MustOID(xref.OIDRSA), der.Null()), der.Octets(x509MarshalPKCS1(&bad)))
 		case "rsa-bad-modulus", "rsa-truncated":
 			k := rsaKeys(1024)[0]
 			if kind == "rsa-truncated" {
@@ -580,9 +631,12 @@ func x509MarshalPKCS1(k *rsa.PrivateKey) []byte {
 		D, P, Q, Dp, Dq, Qi *big.Int
 	}
 	one := big.NewInt(1)
+	qi := new(big.Int).ModInverse(k.Primes[1], k.Primes[0])
+	if qi == nil {
+		qi = big.NewInt(1)
+	}
 	b, err := asn1.Marshal(pkcs1{0, k.N, k.E, k.D, k.Primes[0], k.Primes[1],
-		new(big.Int).Mod(k.D, new(big.Int).Sub(k.Primes[0], one)), new(big.Int).Mod(k.D, new(big.Int).Sub(k.Primes[1], one)),
-		new(big.Int).ModInverse(k.Primes[1], k.Primes[0])})
+		new(big.Int).Mod(k.D, new(big.Int).Sub(k.Primes[0], one)), new(big.Int).Mod(k.D, new(big.Int).Sub(k.Primes[1], one)), qi})
 	if err != nil {
 		panic(err)
 	}
